@@ -490,6 +490,9 @@ def handle (q : Q) (op : String) (a : Proto.Args) : Q × String :=
     if r == .panic then (q', "panic") else (q', outStr q q' r evs (a.bool "nost"))
   | "pop" =>
     let (q', r, evs) := q.popUsed (a.nat "tok") (parseBufs (a.str "in")) (parseBufs (a.str "out")); (q', outStr q q' r evs (a.bool "nost"))
+  | "add_huge" =>
+    -- a buffer of 2^32 + 16 bytes: `buf.len().try_into().unwrap()` in `Descriptor::set_buf` panics
+    (q, "panic")
   | "decide" =>
     -- stateless: the notification decision for the given device-side words (driver-level C05 stream)
     let q' : Q := { Q.init 1 false (a.bool "ev") false with
